@@ -69,6 +69,8 @@ func classCall(cl int, variant int) Call {
 		_ = c.Func.Init(c.Func.Complete + "2")
 	case 2: // other line
 		c.Line++
+	case 4: // a source file directly under the file-system root: no directory name
+		setSrc(&c, "/"+c.SrcName, c.Line)
 	case 3: // other directory, same base name
 		c.RemoteSrcPath = "/zz" + c.RemoteSrcPath
 		setSrc(&c, c.RemoteSrcPath, c.Line)
@@ -181,7 +183,7 @@ func ordUniverse(thorough bool) []ordSig {
 	// attribute variants on 1- and 2-frame stacks
 	for _, base := range [][]int{{clStdlib}, {clMain}, {clStdlib, clMain}, {clGoMod, clStdlib}} {
 		for pos := range base {
-			for vr := 1; vr <= 3; vr++ {
+			for vr := 1; vr <= 4; vr++ {
 				vv := make([]int, len(base))
 				vv[pos] = vr
 				add(base, vv, false, "chan receive")
